@@ -130,7 +130,7 @@ fn show_utc(u: &UtcDateTime) -> String {
 fn res<T, E: std::fmt::Debug>(r: Result<T, E>, f: impl Fn(&T) -> String) -> String {
     match r {
         Ok(x) => format!("ok {}", f(&x)),
-        Err(e) => format!("err {}", format!("{:?}", e).replace(' ', "")),
+        Err(e) => format!("err {}", format!("{:?}", e).replace(' ', "").replace('"', "")),
     }
 }
 
